@@ -237,7 +237,7 @@ def _len_guard(facts, base_txt, idx_txt, idx_av) -> bool:
                 if ("> %d" % idx_av.const) in text and pol:
                     return True
         if idx_av.has_const() and idx_av.const in (0, -1):
-            if text == base_txt and pol:
+            if text in (base_txt, "bool(%s)" % base_txt) and pol:
                 return True
             if text == "not " + base_txt and not pol:
                 return True
